@@ -104,7 +104,7 @@ def play(r, spec, fault, at):
 
 def run(ctx):
     r = ctx.rng
-    n = ctx.n(150, 2000)
+    n = ctx.n(360, 3000)
     lines, checks = [], []
     with Workdir():
         for si in range(n):
